@@ -1169,8 +1169,10 @@ fn execute_inner(ctx: &mut Ctx, lines: &[String]) -> Vec<String> {
                         if t[0] == "LREOPEN" { h.unflushed = false; h.reopen_mark = Some((h.recs.len(), list_dir(&dir, &[]).len())); }
                         if t[0] == "LROT" && (r.is_ok() || VIA_FAILING.load(std::sync::atomic::Ordering::SeqCst)) && f.cfg.rot.is_some() { h.rotations += 1; h.forced = true; h.forced_at.push(h.recs.len()); h.forced_times.push((h.recs.len(), now)); }
                         // with failing writers around, the call reports THEIR failure — and must have reached the file writer all the same
-                        if VIA_FAILING.load(std::sync::atomic::Ordering::SeqCst) { if r.is_err() { "ok".into() } else { "err: the failure of the other writers was not reported".into() } }
-                        else if r.is_ok() { "ok".into() } else { "err".into() }
+                        if VIA_FAILING.load(std::sync::atomic::Ordering::SeqCst) && r.is_ok() {
+                            ctx.report.fail(&case_id, "failure-of-a-writer-not-reported", &format!("line {li}: {} returned Ok although the primary writer and eight additional writers failed", t[0]));
+                        }
+                        if r.is_ok() { "ok".into() } else { "err".into() }
                     }
                 }
             }
